@@ -96,7 +96,7 @@ inductive S where
   /-- `if c: …; return` (no exception inside) -/
   | ret (c : C)
   /-- a statement that changes the state named `what` (attribute assignment, `.append`, …) -/
-  | mut (what : String)
+  | mutate (what : String)
   deriving DecidableEq, Repr
 
 inductive Stmt where
@@ -154,7 +154,7 @@ def encC : C → List Tok
 def encS : S → List Tok
   | .raise cls c => ("raise", 0, cls) :: encC c
   | .ret c => ("ret", 0, "") :: encC c
-  | .mut what => [("mut", 0, what)]
+  | .mutate what => [("mut", 0, what)]
 
 def encStmt : Stmt → List Tok
   | .s x => encS x
@@ -257,7 +257,7 @@ def decS (f : Nat) : List Tok → Option (S × List Tok)
       match tag with
       | "raise" => do let (c, r) ← decC f r; some (.raise s c, r)
       | "ret" => do let (c, r) ← decC f r; some (.ret c, r)
-      | "mut" => some (.mut s, r)
+      | "mut" => some (.mutate s, r)
       | _ => none
 
 def decSs (f : Nat) : Nat → List Tok → Option (List S × List Tok)
@@ -363,7 +363,7 @@ def runS (env : Env) : List S → List String → Option Out × List String
   | [], tr => (none, tr)
   | .raise cls c :: r, tr => if evalC env c then (some (.reject cls), tr) else runS env r tr
   | .ret c :: r, tr => if evalC env c then (some .accept, tr) else runS env r tr
-  | .mut what :: r, tr => runS env r (tr ++ [what])
+  | .mutate what :: r, tr => runS env r (tr ++ [what])
 
 def eachRun (env : Env) (v : String) (body : List S) : List Int → List String → Option Out × List String
   | [], tr => (none, tr)
@@ -377,7 +377,7 @@ def traceStmts (env : Env) : List Stmt → List String → Out × List String
   | [], tr => (.accept, tr)
   | .s (.raise cls c) :: r, tr => if evalC env c then (.reject cls, tr) else traceStmts env r tr
   | .s (.ret c) :: r, tr => if evalC env c then (.accept, tr) else traceStmts env r tr
-  | .s (.mut what) :: r, tr => traceStmts env r (tr ++ [what])
+  | .s (.mutate what) :: r, tr => traceStmts env r (tr ++ [what])
   | .each v l body :: r, tr =>
       match (eachRun env v body (env.ints l) tr).1 with
       | some o => (o, (eachRun env v body (env.ints l) tr).2)
@@ -398,7 +398,7 @@ def C.cmps : C → List (Op × E × E)
 def S.conds : S → List C
   | .raise _ c => [c]
   | .ret c => [c]
-  | .mut _ => []
+  | .mutate _ => []
 
 def Stmt.conds : Stmt → List C
   | .s x => x.conds
@@ -409,10 +409,13 @@ def Stmt.raises : Stmt → List (String × C)
   | .s _ => []
   | .each _ _ body => body.flatMap (fun x => match x with | .raise cls c => [(cls, c)] | _ => [])
 
+def S.muts : S → List String
+  | .mutate w => [w]
+  | _ => []
+
 def Stmt.muts : Stmt → List String
-  | .s (.mut w) => [w]
-  | .s _ => []
-  | .each _ _ body => body.flatMap (fun x => match x with | .mut w => [w] | _ => [])
+  | .s x => x.muts
+  | .each _ _ body => body.flatMap S.muts
 
 /-- no statement of the list changes state (the list ends with its last guard) -/
 def mutFree (g : List Stmt) : Bool := g.all (fun st => st.muts.isEmpty)
@@ -452,7 +455,7 @@ def tolCmpSymmetric : Op × E × E → Bool
 def absSymmetric (g : List Stmt) : Bool :=
   g.all (fun st => st.conds.all (fun c => c.cmps.all tolCmpSymmetric))
 
-/-- on which sides the comparisons of a condition bound the variable `x` by an integer constant:
+/-- on which sides the comparisons of a condition bound the variable `x` (by a constant or another expression):
     (`x` on the small side: `x < k`, `x <= k`, `k > x`, `k >= x`;  `x` on the large side: `x > k`, `x >= k`, `k < x`,
     `k <= x`).  A negation around the condition swaps the meaning of both at once, so "both present" says that
     the variable is bounded from below and from above. -/
@@ -460,16 +463,14 @@ def boundsOn (x : String) : List (Op × E × E) → Bool × Bool
   | [] => (false, false)
   | (op, a, b) :: r =>
       let (small, large) := boundsOn x r
-      match op, a, b with
-      | .lt, .var y, .int _ => if y == x then (true, large) else (small, large)
-      | .le, .var y, .int _ => if y == x then (true, large) else (small, large)
-      | .gt, .var y, .int _ => if y == x then (small, true) else (small, large)
-      | .ge, .var y, .int _ => if y == x then (small, true) else (small, large)
-      | .lt, .int _, .var y => if y == x then (small, true) else (small, large)
-      | .le, .int _, .var y => if y == x then (small, true) else (small, large)
-      | .gt, .int _, .var y => if y == x then (true, large) else (small, large)
-      | .ge, .int _, .var y => if y == x then (true, large) else (small, large)
-      | _, _, _ => (small, large)
+      let onLeft := a == .var x
+      let onRight := b == .var x
+      match op with
+      | .lt => (small || onLeft, large || onRight)
+      | .le => (small || onLeft, large || onRight)
+      | .gt => (small || onRight, large || onLeft)
+      | .ge => (small || onRight, large || onLeft)
+      | _ => (small, large)
 
 /-- the guards bound the index variable `x` from both sides -/
 def twoSided (x : String) (g : List Stmt) : Bool :=
